@@ -254,3 +254,46 @@ def check(run, prog, tier):
     # ---- C02-g lexer state across tokens/compilations
     import rules.C02g as c02g
     c02g.check(run, prog, tier, callgraph.CallGraph(prog))
+
+    # ---- C02-h every kind of permanent identifier that a compilation can redefine is tracked for clean-up
+    run.rule("C02-h", "identifier table: the mask tested before an identifier is put on the dirty list (whose entries free_unused_identifiers() resets after each compilation) covers every token bit with which permanent identifiers are created (the second argument of find_or_add_perm_ident at all call sites, and direct stores of IHE_* bits)", 1)
+    perm_bits = 0
+    nsrc = 0
+    for f in prog.functions():
+        for b, i, n in f.calls("find_or_add_perm_ident"):
+            if len(n.get("args", [])) >= 2 and const_val(n["args"][1]) is not None:
+                perm_bits |= const_val(n["args"][1])
+                nsrc += 1
+        for b, i, n in f.nodes():
+            if n.get("k") == "Asg" and n.get("op") in ("|=",) and strip(n["L"]).get("k") == "Mem" and strip(n["L"]).get("f") == "token" and strip(n["L"]).get("rec") in ("ident_hash_elem_s", "ident_hash_elem_t") and const_val(n["R"]) is not None:
+                perm_bits |= const_val(n["R"])
+                nsrc += 1
+    run.need(nsrc >= 3 and perm_bits, "creation sites of permanent identifiers (found %d)" % nsrc)
+    ident = prog.unit("lib/lpc/identifier.c")
+    dirty_sites = []
+    for f in ident.funcs.values():
+        if not f.file.endswith("identifier.c") or f.name == "free_unused_identifiers":
+            continue
+        for b, i, n in f.nodes():
+            if n.get("k") == "Asg" and n.get("op") == "=" and strip(n["L"]).get("k") == "Ref" and strip(n["L"]).get("n") == "ident_dirty_list":
+                dirty_sites.append((f, b, i, n))
+    run.need(dirty_sites, "insertions into ident_dirty_list")
+    for j, (f, b, i, n) in enumerate(sorted(dirty_sites, key=lambda x: (x[0].name, x[3].get("l") or 0))):
+        run.saw(f)
+        masks = []
+        for c, t, B in cfgq.guards(f, b.id):
+            c0, t0 = normalize_cond(c, t)
+            c0 = strip(c0)
+            if c0.get("k") == "Bin" and c0.get("op") == "&":
+                for x, y in ((strip(c0["L"]), c0["R"]), (strip(c0["R"]), c0["L"])):
+                    if x.get("k") == "Mem" and x.get("f") == "token" and const_val(y) is not None:
+                        masks.append((const_val(y), t0))
+        # early-return style: `if (!(token & M)) return;` shows up as guard (token & M) true as well
+        pos = [m for m, t0 in masks if t0]
+        mask = 0
+        for m in pos:
+            mask |= m
+        ok = bool(pos) and (perm_bits & ~mask) == 0
+        run.ob("C02-h", "dirty-mask:%s:%d" % (f.name, j), ok, "dirty-list insertion at line %s is taken for token & 0x%x; permanent identifiers are created with bits 0x%x" % (n.get("l"), mask, perm_bits) if ok else
+               "dirty-list insertion at line %s only for token & 0x%x, but permanent identifiers also carry 0x%x: redefining such a name (e.g. a simul efun) in one file leaves its function/global/class number set for every later compilation" % (n.get("l"), mask, perm_bits & ~mask),
+               f.file, n.get("l"), f.name, what="%s does not track every kind of permanent identifier on the dirty list (missing bits 0x%x)" % (f.name, perm_bits & ~mask))
